@@ -1,4 +1,5 @@
 import GoSup.Spec.Cluster
+import GoSup.Model.ClusterRun
 import Driver.Util
 namespace Driver.Cluster
 open GoSup.Spec.Cluster Driver
@@ -47,7 +48,32 @@ def parseAll (ws : List String) : Option (Info × List Ev) := do
   let evs ← (ws.filter fun w => !(w.contains '=') && !(w.contains '~')).mapM parseEv
   some ({ maps := maps, ff := parseIds ((kvOf ws "ff").getD "none"), fo := parseIds ((kvOf ws "fo").getD "none"),
           nr := parseIds ((kvOf ws "nr").getD "none"),
-          hung := flag "hung" > 0, live := flag "live" }, evs)
+          hung := flag "hung" > 0, live := flag "live", second := (kvOf ws "second").getD "none" }, evs)
+
+def fsmName : GoSup.CompSeq.Fsm → String
+  | .new => "New" | .booting => "Booting" | .running => "Running" | .reloading => "Reloading"
+  | .stopping => "Stopping" | .stopped => "Stopped" | .error => "Error"
+
+open GoSup.ClusterRun in
+/-- the state machine side of a cluster history against `ClusterRun`: the state after every processed map, the result
+and final state of `Run()`, and what a second `Run()` of the same runner does -/
+def walkDiffers (i : Info) (t : List Ev) : Option String :=
+  let counts := t.filterMap fun e => match e with | .count k _ st => some (k, st) | _ => none
+  -- every map is delivered twice: 2 (k + 1) updates have been processed when the k-th count is taken
+  match counts.find? (fun (k, st) => st != fsmName (updates (2 * (k + 1)) .running).1) with
+  | some (k, st) => some s!"differ@{k}:state {st} model {fsmName (updates (2 * (k + 1)) .running).1}"
+  | none =>
+    let w := runWalk .new (2 * counts.length)
+    match t.find? (fun e => match e with | .ret _ _ => true | _ => false) with
+    | some (.ret cls st) =>
+      let mcls := if w.nil then "nil" else "err"
+      if cls != mcls || st != fsmName w.final then some s!"differ:ret {cls}.{st} model {mcls}.{fsmName w.final}"
+      else if i.second == "none" then none
+      else
+        let w2 := runWalk w.final 0
+        let m2 := (if w2.nil then "nil" else "err") ++ "." ++ fsmName w2.final
+        if i.second != m2 then some s!"differ:second {i.second} model {m2}" else none
+    | _ => none
 
 open GoSup.Planner GoSup.Cluster in
 /-- replay the pushed maps on the model (`applyUpdate`) and compare the running servers and the
@@ -60,7 +86,7 @@ def clusterseq (i : Info) (t : List Ev) : String :=
   -- delivery that wants to start it and started by the next one
   let rec go (k : Nat) (cur : Entries) (next : Nat) (foLeft : List String) (maps : List (List (String × Option Nat))) : String :=
     match maps with
-    | [] => "agree"
+    | [] => (walkDiffers i t).getD "agree"
     | m :: rest =>
       match t.find? (fun e => match e with | .count k' _ _ => k' == k | _ => false) with
       | some (.count _ cnt _) =>
@@ -90,7 +116,7 @@ def clusterseq (i : Info) (t : List Ev) : String :=
         else if ostarts != mstarts then s!"differ@{k}:started {repr ostarts} model {repr mstarts}"
         else if cnt != r.entries.length then s!"differ@{k}:count {cnt} model {r.entries.length}"
         else go (k + 1) r.entries r.next (foLeft'.filter fun id => !failed2.contains id) rest
-      | _ => "agree"      -- the run was ended before this push
+      | _ => (walkDiffers i t).getD "agree"      -- the run was ended before this push
   go 0 [] 1 i.fo i.maps
 
 def handle : List String → Option String
